@@ -482,6 +482,36 @@ func Gen(r *rand.Rand, o GenOpts) *World {
 			w.Workloads = append(w.Workloads, pod)
 		}
 	}
+	if len(w.Workloads) > 0 && len(w.Workloads) <= o.MaxWl && r.Intn(8) == 0 {
+		// a workload of the same kind whose name extends another's by a suffix (cart / cart-api), placed BEFORE it half of the time:
+		// their synthetic pod names (cart-1, cart-api-1) never collide and neither may shadow the other
+		k := r.Intn(len(w.Workloads))
+		base := w.Workloads[k]
+		if base.Expr == "controller" && base.Name != "ingress-controller" {
+			ext := g.Workload(len(w.Workloads))
+			ext.NS, ext.Name, ext.Kind, ext.Expr, ext.Replicas, ext.PodCount = base.NS, base.Name+"-api", base.Kind, base.Expr, base.Replicas, base.PodCount
+			if r.Intn(2) == 0 {
+				w.Workloads = append(w.Workloads[:k], append([]Workload{ext}, w.Workloads[k:]...)...)
+			} else {
+				w.Workloads = append(w.Workloads, ext)
+			}
+		}
+	}
+	if len(w.Workloads) > 0 && r.Intn(10) == 0 {
+		// workload names are DNS-1123 subdomains, not labels: dots are legal
+		k := r.Intn(len(w.Workloads))
+		if nm := w.Workloads[k].Name; nm != "ingress-controller" && nm != "shared" {
+			clash := false
+			for _, x := range w.Workloads {
+				if x.NS == w.Workloads[k].NS && x.Name == nm+".v2" {
+					clash = true
+				}
+			}
+			if !clash {
+				w.Workloads[k].Name = nm + ".v2"
+			}
+		}
+	}
 	if o.Collide && len(w.Workloads) > 0 {
 		base := w.Workloads[r.Intn(len(w.Workloads))]
 		if base.Expr == "controller" {
